@@ -5,7 +5,20 @@
 #include <string>
 #include "sim.h"
 
+namespace Oomd {
+namespace Engine {
+class Engine;
+}
+namespace Config2::IR {
+struct Root;
+}
+} // namespace Oomd
+
 namespace sim {
+
+// valid inside g_beforeRun only: the compiled engine and base IR
+extern Oomd::Engine::Engine* g_engine;
+extern Oomd::Config2::IR::Root* g_ir;
 
 struct DaemonResult {
   bool parsed = false; // JsonConfigParser::parse returned an IR
